@@ -296,7 +296,8 @@ func verifyFunc(prog *Program, specs *SpecSet, sp *FuncSpec) (res *FuncResult) {
 		if g == nil {
 			continue
 		}
-		f.emit("ensures", f.oblName("ensures"+clauseTag(e, i)), retPc, g, fn.Pos(), e)
+		eo := f.emit("ensures", f.oblName("ensures"+clauseTag(e, i)), retPc, g, fn.Pos(), e)
+		eo.Expected = expectedOfClause(post, e.E)
 		// reachability probe for implications: antecedent reachable at some return
 		if im, ok := e.E.(*SImpl); ok && f.flagOn("probe", true) {
 			func() {
